@@ -34,6 +34,6 @@ git -C "$wt" diff HEAD > "$dst/patch.diff"
 vc=/tmp/svv-$prop-$mn-$$
 rsync -a --exclude bin --exclude .git --exclude evidence --exclude replays --exclude seeded /verif/ "$vc"/
 sed -i "s#=> /repo/pkg/go#=> $wt/pkg/go#" "$vc/go.mod"
-echo "--- check $prop $tier against the mutant:"
-(cd "$vc" && VERIF_REPO="$wt" ./run.sh "$prop" "$tier" 2>&1 | grep -E "^(VIOLATION|OK|INCONCL|KNOWN)" | sed "s#$vc#/verif#g" | head -4)
+echo "--- check ${CHECK:-$prop} $tier against the mutant:"
+(cd "$vc" && VERIF_REPO="$wt" ./run.sh "${CHECK:-$prop}" "$tier" 2>&1 | grep -E "^(VIOLATION|OK|INCONCL|KNOWN)" | sed "s#$vc#/verif#g" | head -4)
 rm -rf "$vc"
